@@ -62,12 +62,12 @@ impl ArrValue {
 	}
 
 	#[must_use]
-	pub fn map(self, mapper: NativeFn!((Val) -> Val)) -> Self {
+	pub fn map(self, mapper: NativeFn!((Thunk<Val>) -> Val)) -> Self {
 		Self::new(<MappedArray>::new(self, ArrayMapper::Plain(mapper)))
 	}
 
 	#[must_use]
-	pub fn map_with_index(self, mapper: NativeFn!((u32, Val) -> Val)) -> Self {
+	pub fn map_with_index(self, mapper: NativeFn!((u32, Thunk<Val>) -> Val)) -> Self {
 		Self::new(<MappedArray>::new(self, ArrayMapper::WithIndex(mapper)))
 	}
 
